@@ -998,7 +998,11 @@ class Exec:
                     nxt = []
                     for stt in cur:
                         for exc in iter_raises:
-                            sx = stt.fork(); sx.trace.append('L%d: iterator raises %s' % (s.lineno, exc)); outs.append(Outcome('raise', sx, exc=exc))
+                            sx = stt.fork(); sx.trace.append('L%d: iterator raises %s' % (s.lineno, exc))
+                            if exc == 'OSError':
+                                if sx.ghost.get('faulted'): continue
+                                sx.ghost['faulted'] = True; sx.ghost['fault_op'] = 'iterate'
+                            outs.append(Outcome('raise', sx, exc=exc))
                         stt.env['i%d_' % k_id] = VInt(j)
                         item = wrap(z3.Select(setup.arr, j), setup.elem)
                         stt.pc += wf(item)
@@ -1044,6 +1048,9 @@ class Exec:
             self.ctx.oblige(st, 'loop%d/inv%s/entry' % (k, inv.label), self.spec_eval(inv.text, st, st.env), s, props=inv.props, kind='loop-inv-entry')
         # 2. havoc modified variables
         mod_names, mod_fields = self.modified(s)
+        mut_only = self.mutated_only(s)
+        # a name that is only the receiver of a mutator call (x.append / x.write) needs no havoc unless it holds a container VALUE
+        mod_names = set(n for n in mod_names if n not in mut_only or isinstance(st.env.get(n), (VList, VSet, VDict)))
         h = st.fork()
         for n in mod_names:
             if n in h.env and not isinstance(h.env[n], (VFunc, VMod)) and type(h.env[n]).__name__ not in ('VFile', 'VCtx', 'VConst'):
@@ -1061,6 +1068,33 @@ class Exec:
                     h.heap[key] = tuple(arrs)
                 else:
                     havoc_heap_key(h, key)
+        # heap fields and ghost state written through CALLS inside the loop (callee `modifies`, library models): found by a dry run of
+        # the body, then havocked at the loop head so that the head state stands for an arbitrary iteration
+        for _round in range(3):
+            wkeys, wghost = self.loop_write_set(s, h, cond, setup, k)
+            new = [key for key in wkeys if not getattr(h, '_hv', set()) or key not in h._hv]
+            newg = [g for g in wghost if g not in getattr(h, '_hvg', set())]
+            if not new and not newg: break
+            h._hv = getattr(h, '_hv', set()) | set(new); h._hvg = getattr(h, '_hvg', set()) | set(newg)
+            for key in new:
+                if key not in h.heap: continue
+                refs = wkeys[key]
+                if refs is not None:
+                    # every write in the dry run went to one of these references, and they denote the same objects in every
+                    # iteration (they do not depend on anything the loop modifies): only those objects' fields change
+                    arrs = list(h.heap[key])
+                    for r in refs:
+                        arrs = [z3.Store(a, r, z3.FreshConst(a.sort().range(), 'H_%s_%s' % key)) for a in arrs]
+                    h.heap[key] = tuple(arrs)
+                else:
+                    havoc_heap_key(h, key)
+            for g in newg:
+                cur = h.ghost.get(g)
+                if cur is None or g == 'alloc': continue
+                if isinstance(cur, V): h.ghost[g] = fresh('hv_' + g.strip('$'), cur.ty)
+                elif z3.is_expr(cur): h.ghost[g] = z3.FreshConst(cur.sort(), 'hv_' + g.strip('$'))
+        if 'alloc' in h.ghost and getattr(h, '_hvg', None) is not None and 'alloc' in wghost:
+            a2 = z3.FreshInt('alloc'); h.assume(a2 >= h.ghost['alloc']); h.ghost['alloc'] = a2
         for m in spec.get('modifies', []): self.havoc(m, h, h.env)
         for g in spec.get('modifies_ghost', []):
             if g in h.ghost: h.ghost[g] = fresh('hv_' + g, h.ghost[g].ty)
@@ -1086,7 +1120,11 @@ class Exec:
         if setup is not None:
             i = b.env[idx]
             for exc in iter_raises:      # the iterator itself may fail between two items
-                sx = b.fork(); sx.trace.append('L%d: iterator raises %s' % (s.lineno, exc)); outs.append(Outcome('raise', sx, exc=exc))
+                sx = b.fork(); sx.trace.append('L%d: iterator raises %s' % (s.lineno, exc))
+                if exc == 'OSError':
+                    if sx.ghost.get('faulted'): continue          # one injected I/O fault per execution
+                    sx.ghost['faulted'] = True; sx.ghost['fault_op'] = 'iterate'
+                outs.append(Outcome('raise', sx, exc=exc))
             b.assume(i.term < setup.n, 'L%d: loop body' % s.lineno)
             item = wrap(z3.Select(setup.arr, i.term), setup.elem)
             b.pc += wf(item)               # type invariant of the element (bytes: every code point <= 255)
@@ -1112,6 +1150,83 @@ class Exec:
             else:
                 outs.append(o)
         return outs
+
+    def loop_write_set(self, s, st, cond, setup, k):
+        """dry run of one iteration from `st`: which heap keys / ghost entries does the body write (directly or through callees)?"""
+        c = self.ctx
+        saved = (list(c.obligations), dict(c.names), c.raises, list(c.warnings), set(c.called), c.iter_raises)
+        keys, ghosts = {}, set()
+        try:
+            c.raises = []
+            b = st.fork()
+            if setup is not None:
+                i = fresh('i%d_dry' % k, TInt()); b.env['i%d_' % k] = i
+                self.assign(s.target, wrap(z3.Select(setup.arr, i.term), setup.elem), b)
+            outs = self.block(s.body, b)
+            outs += c.raises
+            for o in outs:
+                for key, arrs in o.state.heap.items():
+                    old = st.heap.get(key)
+                    if old is None: continue            # created lazily during the dry run: never read before, so its initial value is arbitrary anyway
+                    if any(a is not b_ and not a.eq(b_) for a, b_ in zip(arrs, old)):
+                        refs = []
+                        for a, b_ in zip(arrs, old):
+                            r = store_refs(a, b_)
+                            if r is None: refs = None; break
+                            refs += r
+                        if key in keys and (keys[key] is None or refs is None): keys[key] = None
+                        elif key in keys: keys[key] = keys[key] + [r for r in refs if not any(r.eq(x) for x in keys[key])]
+                        else: keys[key] = refs
+                for g, v in o.state.ghost.items():
+                    old = st.ghost.get(g)
+                    if old is None or old is v: continue
+                    if isinstance(v, V) and isinstance(old, V):
+                        if hasattr(v, 'term') and hasattr(old, 'term') and v.term.eq(old.term): continue
+                        ghosts.add(g)
+                    elif z3.is_expr(v) and z3.is_expr(old):
+                        if not v.eq(old): ghosts.add(g)
+                    elif v != old: ghosts.add(g)
+        except ToolLimit:
+            raise
+        finally:
+            c.obligations[:] = saved[0]; c.names.clear(); c.names.update(saved[1]); c.raises = saved[2]; c.warnings[:] = saved[3]
+            c.called.clear(); c.called.update(saved[4]); c.iter_raises = saved[5]
+        ghosts.discard('faulted'); ghosts.discard('fault_op')
+        # a reference is usable for a precise havoc only if it does not depend on state the loop changes
+        changed = [a for key in keys for a in st.heap.get(key, ())]
+        dry = z3.Int('i%d_dry' % k)
+        mod_names, _ = self.modified(s)
+        changed_syms = [dry]
+        for n in mod_names:
+            v = st.env.get(n)
+            if v is not None and hasattr(v, 'term') and z3.is_expr(v.term): changed_syms.append(v.term)
+        for key in list(keys):
+            if keys[key] is None: continue
+            uniq = []
+            for r in keys[key]:
+                if mentions(r, changed + changed_syms): keys[key] = None; break
+                if not any(r.eq(x) for x in uniq): uniq.append(r)
+            else:
+                keys[key] = uniq
+        return keys, ghosts
+
+    def mutated_only(self, loop):
+        """names that occur in the loop only as receivers of mutator method calls, never as assignment targets"""
+        assigned, recv = set(), set()
+        for n in ast.walk(loop):
+            tg = []
+            if isinstance(n, ast.Assign): tg = n.targets
+            elif isinstance(n, (ast.AugAssign, ast.AnnAssign)): tg = [n.target]
+            elif isinstance(n, ast.For): tg = [n.target]
+            elif isinstance(n, ast.With): tg = [i.optional_vars for i in n.items if i.optional_vars is not None]
+            elif isinstance(n, ast.ExceptHandler) and n.name: assigned.add(n.name)
+            for t in tg:
+                for x in ast.walk(t):
+                    if isinstance(x, ast.Name) and isinstance(x.ctx, (ast.Store, ast.Del)): assigned.add(x.id)
+                    if isinstance(x, ast.Subscript) and isinstance(x.value, ast.Name): assigned.add(x.value.id)
+            if isinstance(n, ast.Call) and isinstance(n.func, ast.Attribute) and n.func.attr in lib.MUTATORS and isinstance(n.func.value, ast.Name):
+                recv.add(n.func.value.id)
+        return recv - assigned
 
     def precise_field_stores(self, loop, mod_names, st):
         """field -> [receiver refs] when every assignment `recv.field = ...` / `recv.field += ...` in the loop has a receiver that is a
@@ -1254,6 +1369,32 @@ def alloc_bound(st, v):
 
 def havoc_heap_key(h, key):
     h.heap[key] = tuple(z3.FreshConst(a.sort(), 'H_%s_%s' % key) for a in h.heap[key])
+
+
+def store_refs(arr, base):
+    """arr == Store(...Store(base, r1, v1)..., rn, vn)  ->  [r1..rn]; None when arr is not such a chain over `base`"""
+    refs = []
+    cur = arr
+    while not (cur is base or cur.eq(base)):
+        if z3.is_app(cur) and cur.decl().kind() == z3.Z3_OP_STORE:
+            refs.append(cur.arg(1)); cur = cur.arg(0)
+        else:
+            return None
+    return refs
+
+
+def mentions(term, subs):
+    """does `term` contain one of the terms in `subs` as a sub-term?"""
+    ids = set(x.get_id() for x in subs)
+    todo = [term]; seen = set()
+    while todo:
+        t = todo.pop()
+        i = t.get_id()
+        if i in seen: continue
+        seen.add(i)
+        if i in ids: return True
+        todo.extend(t.children())
+    return False
 
 
 def frame_check(ctx, ex, c, o, pi, node):
